@@ -186,8 +186,36 @@ def check_correlation(ctx, case):
         ctx.violation('get_range() does not report the supplied range', case,
                       {'reported': repr(rep.get('ok')), 'supplied': rr})
         return
-    if judge(ctx, case, kind, obj, has, rr, lambda T: not has_cp, rng,
-             knots=case['Ts']):
+    first = judge(ctx, case, kind, obj, has, rr, lambda T: not has_cp, rng,
+                  knots=case['Ts'])
+    if first and kind != 'raw' and not case.get('invalid_by_construction'):
+        # a COPY of the object is given a wider range (set_range, and a merge
+        # with a wider-ranged twin): the original still answers for its own
+        wide = (rr[0] - 40.0 if rr[0] > 60 else rr[0] * 0.5, rr[1] + 300.0)
+        for how in ('set_range', 'update'):
+            co = observe(obj.copy)
+            if 'exc' in co:
+                break
+            twin = co['ok']
+            if how == 'set_range':
+                mo = observe(twin.set_range, wide)
+            else:
+                mo = observe(twin.update, type(obj)(None, None, {},
+                                                    case['T_ref'], wide))
+            if 'exc' in mo:
+                continue
+            rep2 = observe(obj.get_range)
+            if 'exc' in rep2 or tuple(rep2['ok']) != rr:
+                ctx.violation('changing the range of a copy (%s) changed the '
+                              'range the original reports' % how, case,
+                              {'reported': repr(rep2.get('ok'))})
+                return
+            if not judge(ctx, dict(case, after_copy=how), kind + ' after its '
+                         'copy was widened by ' + how, obj, has, rr,
+                         lambda T: not has_cp, rng, knots=case['Ts']):
+                return
+            ctx.count('originals_probed_after_their_copy_was_widened')
+    if first:
         ctx.nontrivial([kind, case['Ts'], case['Cps'], case['T_ref'], rr])
         ctx.sample({'object': kind, 'range': rr, 'T_ref': case['T_ref'],
                     'n_points': len(case['Ts'])})
